@@ -159,6 +159,7 @@ Proof.
   revert H. intros H. prep e H. all: unfold believed in *; hlit; cbn [r_out r_owns r_updated r_placed] in *. all: try basic.
   all: try (match goal with Fh : find_h _ _ = Some _ |- _ => pose proof (find_h_unique _ _ _ ND Fh) as FU end).
   all: cbv iota beta in F.
+  all: try match goal with E : r_out _ = _ |- _ => rewrite E in * end.
   all: lazymatch goal with EV := ?x |- _ =>
          lazymatch x with
          | ECreate _ => intros Hm; match goal with C : created _ = false |- _ => rewrite (FR C) in F end; apply F; exact Hm
@@ -170,9 +171,10 @@ Proof.
            intros Hm y Hy; apply filter_In; split; [apply F; auto|];
            match goal with Q : eqsetN _ _ = true |- _ => rewrite eqsetN_spec in Q; apply memN_In; apply Q; exact Hy end
          | _ =>
-           intros Hm; eapply incl_tran; [|apply F; exact Hm];
+           intros Hm; first [ exact (F Hm) |
+           eapply incl_tran; [|apply F; exact Hm];
            apply act_ids_set_incl; intros h1 Hh1 Hid1;
-           first [ right; reflexivity | left; rewrite (FU h1 Hh1 Hid1); unfold h_active; match goal with E : h_state _ = _ |- _ => rewrite E end; reflexivity | left; rewrite (FU h1 Hh1 Hid1); assumption ]
+           first [ right; reflexivity | left; rewrite (FU h1 Hh1 Hid1); unfold h_active; match goal with E : h_state _ = _ |- _ => rewrite E end; reflexivity | left; rewrite (FU h1 Hh1 Hid1); assumption ] ]
          end
        end.
 Qed.
